@@ -3,7 +3,23 @@
 import json, os, sys
 HERE = os.path.dirname(os.path.dirname(os.path.abspath(__file__)))
 sys.path.insert(0, HERE)
-from tools.manifest_table import CHECKS, NOT_APPLICABLE, ENGINES, NOTES  # noqa: E402
+from tools.manifest_table import ENGINES, NOTES, NA_REASONS, _TODO  # noqa: E402
+import ast
+
+PROPS = [json.loads(l)["id"] for l in open(os.path.join(HERE, "properties.jsonl"))]
+CHECKS, NOT_APPLICABLE = [], []
+for pid in PROPS:
+    f = os.path.join(HERE, "props", pid + ".py")
+    entry = None
+    if os.path.exists(f):
+        for node in ast.parse(open(f).read()).body:
+            if isinstance(node, ast.Assign) and any(isinstance(t, ast.Name) and t.id == "MANIFEST" for t in node.targets):
+                entry = ast.literal_eval(node.value)
+    if entry:
+        entry["id"] = pid
+        CHECKS.append(entry)
+    else:
+        NOT_APPLICABLE.append({"property_id": pid, "reason": NA_REASONS.get(pid, _TODO)})
 
 BASELINE = ("cd /repo && /venv/bin/python -m pytest -ra -q -p no:cacheprovider --timeout=900 "
             "--continue-on-collection-errors")
